@@ -121,60 +121,57 @@ Proof. exact open_offline_no_fts. Qed.
 Print Assumptions C11_offline_needs_fileTimeSecs.
 
 (* ---- the reader as a stateful object on a file whose size changes ---- *)
+(* Since repair aa7f63d Reader.open no longer reads the size cached by the constructor: the
+   comparison, the duration and np.memmap all see the file as it is at that moment. *)
 
-(* 9. open_bin (theorems 1-8) is open_at with the constructor's size = the current size *)
+(* 9. open_bin (theorems 1-8) is the outcome component of the stateful open_at *)
 Theorem C11_open_bin_is_open_at : forall online isz nbytes nc fts fs,
-  open_bin online isz nbytes nc fts fs = fst (open_at online isz nbytes nbytes nc fts fs).
+  open_bin online isz nbytes nc fts fs = fst (open_at online isz nbytes nc fts fs).
 Proof. exact open_bin_open_at. Qed.
 Print Assumptions C11_open_bin_is_open_at.
 
 (* 10. OnlineReader, every history: constructor with open=True or open=False on a file of
    cur0 bytes, then any sequence of "the file now has n bytes" (appends or cuts), sr.open()
-   (first open or re-open) and sr.__enter__() — sizes and isz*nc below 2^53.  At every point sr.ns
-   is the floor of the CURRENT size, and every open attempt succeeds and maps exactly the
-   floor of the size the file has at that moment (whatever size the constructor cached). *)
+   (first open or re-open) and sr.__enter__() — sizes and isz*nc below 2^53.  Every open attempt
+   succeeds, maps exactly the floor of the size the file has at that moment, and sr.ns equals
+   it (snap_ok); moreover sr.ns is the floor of the CURRENT size at every point of the
+   history, also before any open and between opens (online_snap_ok). *)
 Theorem C11_online_history : forall isz nc fs fts cur0 do_op ops,
-  isz_ok isz -> 1 <= nc -> isz * nc < 2 ^ 53 -> 1 <= cur0 < 2 ^ 53 -> Forall op_ok ops ->
-  Forall (online_snap_ok isz nc) (history true isz nc fs fts cur0 do_op ops).
+  isz_ok isz -> 1 <= nc -> isz * nc < 2 ^ 53 ->
+  size_ok true isz nc cur0 -> Forall (op_ok true isz nc) ops ->
+  Forall (fun s => snap_ok isz nc s /\ online_snap_ok isz nc s) (history true isz nc fs fts cur0 do_op ops).
 Proof.
   intros isz nc fs fts cur0 do_op ops Hi Hnc Hinc. exact (history_online isz nc Hi Hnc Hinc fs fts cur0 do_op ops).
 Qed.
 Print Assumptions C11_online_history.
 
-(* 11. Offline Reader, the exact truth when the constructor saw `cached` bytes and the file has
-   `cur` bytes at open(): the comparison uses the cached size, the duration a fresh stat.
-   Claim disagrees with the cached size: floor of the CURRENT size, fileTimeSecs rewritten.
-   Claim agrees with the cached size: the claim ns0 is mapped as it is, checked by np.memmap
-   against the current file. *)
-Theorem C11_offline_open_exact : forall isz cached cur nc t fs ns0,
+(* 11. Offline Reader (meta file with a fileTimeSecs entry that Reader.ns converts), every
+   history of the same kind — sizes at least 1 byte and at most 2^50 frames, fs in [2^-64, 2^64]:
+   every open attempt (first open, re-open after growth, __enter__, after a cut) succeeds, maps
+   exactly the floor of the size the file has at that moment, and sr.ns then equals it (snap_ok).
+   What remains different from OnlineReader (offline_snap_ok): Reader.ns is at every point what
+   the meta dictionary says — before the first open the meta file's claim, after an open the frame
+   count of that open, even if the file has changed since. *)
+Theorem C11_offline_history : forall isz nc fs t ns0 cur0 do_op ops,
+  1 <= isz -> 1 <= nc -> fs_ok fs -> ns_meta (Some t) fs = NsOk ns0 ->
+  size_ok false isz nc cur0 -> Forall (op_ok false isz nc) ops ->
+  Forall (fun s => snap_ok isz nc s /\ offline_snap_ok s) (history false isz nc fs (Some t) cur0 do_op ops).
+Proof.
+  intros isz nc fs t ns0 cur0 do_op ops Hi Hnc Hfs.
+  exact (history_offline isz nc fs Hi Hnc Hfs t ns0 cur0 do_op ops).
+Qed.
+Print Assumptions C11_offline_history.
+
+(* 12. One open of the offline Reader on a file of cur bytes, with the fileTimeSecs afterwards *)
+Theorem C11_offline_open_at : forall isz cur nc t fs ns0,
   1 <= nc -> 1 <= isz -> 1 <= cur -> cur / (isz * nc) <= 2 ^ 50 -> fs_ok fs ->
   ns_meta (Some t) fs = NsOk ns0 ->
   let k := cur / (isz * nc) in
-  open_at false isz cached cur nc (Some t) fs =
-    if negb (nc * ns0 * isz =? cached)
-    then (Opened k nc (Some (rl k fs)) true, Some (rl k fs))
-    else (if memmap_ok isz cur ns0 nc then Opened ns0 nc (Some t) false else MmapError, Some t).
+  let rw := negb (nc * ns0 * isz =? cur) in
+  let fts' := if rw then Some (rl k fs) else Some t in
+  open_at false isz cur nc (Some t) fs = (Opened k nc fts' rw, fts').
 Proof. exact open_at_offline. Qed.
-Print Assumptions C11_offline_open_exact.
-
-(* 12. Hence the property's clause fails for the offline Reader in one kind of history (F-C11-c):
-   Reader(file, open=False) on a file that agrees with its meta file, the file changes, open():
-   after an append the frames added since the constructor are NOT exposed (ns0 < floor(cur) as soon
-   as a whole frame was added); after a cut np.memmap raises. *)
-Theorem C11_offline_stale_size_refuted : forall isz cached cur nc t fs ns0,
-  1 <= nc -> 1 <= isz -> 0 <= ns0 -> ns_meta (Some t) fs = NsOk ns0 -> nc * ns0 * isz = cached ->
-  (1 <= cached -> cached + isz * nc <= cur ->
-     (open_at false isz cached cur nc (Some t) fs = (Opened ns0 nc (Some t) false, Some t)) /\
-     (ns0 < cur / (isz * nc))) /\
-  (cur < cached -> open_at false isz cached cur nc (Some t) fs = (MmapError, Some t)).
-Proof.
-  intros isz cached cur nc t fs ns0 Hnc Hisz Hns Hm Hc. split.
-  - intros H1 H2. split; [apply (open_at_offline_stale_grow isz cached cur nc t fs ns0); auto; lia|].
-    assert (0 < isz * nc) by nia.
-    assert (ns0 + 1 <= cur / (isz * nc)) by (apply Z.div_le_lower_bound; nia). lia.
-  - intros H. apply (open_at_offline_stale_cut isz cached cur nc t fs ns0); auto.
-Qed.
-Print Assumptions C11_offline_stale_size_refuted.
+Print Assumptions C11_offline_open_at.
 
 (* ---- the hypotheses are satisfiable on concrete, non-trivial inputs ---- *)
 Local Open Scope R_scope.
@@ -210,7 +207,8 @@ Proof. vm_compute. reflexivity. Qed.
 Example ex_offline_typeerror : run [0; 0; 0; 2; 385 * 2 * 22 + 386; 385; 8246371018302554; -38; 0; 0; 0] = [3].
 Proof. vm_compute. reflexivity. Qed.
 
-(* histories: OnlineReader(open=False) on 34 bytes (nc=5), file grows to 259 bytes, open(), grows to 400, re-open *)
+(* histories: OnlineReader(open=False) on 34 bytes (nc=5), file grows to 259 bytes, open(), grows to 400 = exactly
+   40 frames, __enter__ (no-op), re-open: 40 frames mapped; no mismatch, so meta fileTimeSecs keeps the 25-frame value *)
 Example ex_history_online :
   run [2; 1; 0; 2; 5; 30000; 0; 0; 0; 0; 34; 0;  0; 259; 1; 0; 0; 400; 2; 0; 1; 0]
   = [9;0; 0;3; -1; 4;0;0;0; 3;0;7378697629483821;-66;
@@ -218,14 +216,15 @@ Example ex_history_online :
      0;1; 0;25; 25; 3;0;7686143364045647;-63; 3;0;7686143364045647;-63;
      9;0; 0;40; 25; 3;0;7686143364045647;-63; 3;0;6148914691236517;-62;
      9;0; 0;40; 25; 3;0;7686143364045647;-63; 3;0;6148914691236517;-62;
-     0;1; 0;40; 40; 3;0;6148914691236517;-62; 3;0;6148914691236517;-62].
+     0;0; 0;40; 40; 3;0;7686143364045647;-63; 3;0;6148914691236517;-62].
 Proof. vm_compute. reflexivity. Qed.
-(* the witness of theorem 12: meta claims 3 frames = 30 bytes = size at construction; file grows to 100 bytes *)
-Example ex_stale_offline :
-  match fst (open_at false 2 30 100 5 (Some (fdiv (of_Z 3) (of_me 30000 0))) (of_me 30000 0)) with
-  | Opened ns nc _ rw => (ns =? 3) && (nc =? 5) && negb rw && (ns <? 100 / (2 * 5))
-  | _ => false
-  end = true.
+(* offline Reader(open=False) whose meta claims 3 frames = 30 bytes = size at construction (nc=5); the file
+   grows to 100 bytes; open(): 10 frames (before aa7f63d: 3), fileTimeSecs rewritten, warning logged *)
+Example ex_history_offline :
+  run [2; 0; 0; 2; 5; 30000; 0; 1; 7378697629483821; -66; 30; 0;  0; 100; 1; 0]
+  = [9;0; 0;3; -1; 3;0;7378697629483821;-66; 3;0;7378697629483821;-66;
+     9;0; 0;3; -1; 3;0;7378697629483821;-66; 3;0;7378697629483821;-66;
+     0;1; 0;10; 10; 3;0;6148914691236517;-64; 3;0;6148914691236517;-64].
 Proof. vm_compute. reflexivity. Qed.
 (* dtype='int32' (item size 4), 3 channels, 5 frames + 7 bytes, meta claiming 9 frames, OnlineReader and Reader *)
 Example ex_int32_online : run [0; 1; 1; 4; 12 * 5 + 7; 3; 30000; 0; 0; 0; 0]
